@@ -498,6 +498,28 @@ def run_fold(case):
     require(now.dtype == snap.dtype and now.shape == snap.shape and
             bool(np.array_equal(now, snap)), f'caller_array_changed:{kind}',
             lambda: f'{w}: {name}: {now.tolist()} was {snap.tolist()}')
+
+  if case.get('second_call') and clients:
+    # The same function is called again with the SAME shared-input container,
+    # whose entries were replaced in between (a training loop that keeps its
+    # server state in one dict): the call sees the current content.
+    case2 = json.loads(json.dumps(case))
+    case2['shared']['w'] = [x + 1 for x in case['shared']['w']]
+    case2['shared']['c'] = case['shared']['c'] + 1
+    want2 = reference(case2)
+    sh2, _ = np_inputs(case2)
+    shared['w'] = jnp.asarray(sh2['w'].copy())
+    shared['c'] = jnp.asarray(sh2['c'].copy())
+    arg2 = [(ext[cid], batches, cin) for cid, batches, cin in clients]
+    got2 = list(func(shared, arg2))
+    require(sorted(inv[item[0]] for item in got2) == sorted(ids),
+            'second_call:not_exactly_one_result_per_client', f'{w}')
+    for item in got2:
+      cid = inv[item[0]]
+      output, _, scale = want2[cid]
+      compare_tree(item[1], output, exact, TOL * (1.0 + scale),
+                   'second_call_with_updated_shared_input:output',
+                   f'{w} client {cid.hex()} (shared input replaced in place)')
   return None
 
 
@@ -535,6 +557,8 @@ def fold_labels(case):
     ls.append('bool_leaf')
   if prog.get('z'):
     ls.append('state_dtype_changes_at_first_step')
+  if case.get('second_call'):
+    ls.append('second_call_same_shared_container')
   step_special = program_step_special(prog)
   init_special = program_init_special(prog)
   if step_special:
@@ -717,6 +741,7 @@ def fold_strategy(draw, tier):
                  'c': draw(st.integers(-2, 2)),
                  'g': _digits(draw, 4, -2, 2)},
       'clients': clients,
+      'second_call': draw(st.integers(0, 2)) == 0,
   }
 
 
